@@ -756,7 +756,7 @@ def r6(R):
 @rule('C04.R7', 'every record a file storage stages links back to the '
       'object\'s current record (prev pointer from the index) and to the '
       'transaction being written (position from the committed end)',
-      props=['C06', 'C17', 'C07'], min_instances=4)
+      props=['C06', 'C17', 'C07', 'C01'], min_instances=4)
 def r7(R):
     cls = R.prog.cls(FS)
     dh = R.prog.cls('ZODB.FileStorage.format.DataHeader')
@@ -805,9 +805,80 @@ def r7(R):
                 pt = provenance(tloc, op.node.frame, F)
                 if kls is copier:
                     continue        # position handed in by the packer
-                if ('path', ('self', '_pos')) not in pt:
+                extra = sorted(
+                    '.'.join(str(x) for x in v) for k, v in pt
+                    if (k == 'call') or (k == 'path' and
+                                         v != ('self', '_pos')))
+                if ('path', ('self', '_pos')) not in pt or extra:
                     R.violation(op.node, 'the transaction pointer of the '
                                 'record staged by FileStorage.%s is `%s`, not '
-                                'the position the transaction will be '
-                                'written at' % (meth, ast.unparse(tloc)))
+                                'exactly the position the transaction will '
+                                'be written at (the committed end `_pos`%s): '
+                                'the open-time scan rejects the record, the '
+                                'file cannot be reopened after a crash' % (
+                                    meth, ast.unparse(tloc),
+                                    '; it also depends on ' + ', '.join(extra)
+                                    if extra else ''))
     R.require(n >= 4, 'only %d staged record headers found' % n)
+
+
+# ------------------------------------------------------------------ C04.R8
+@rule('C04.R8', 'the transaction id a storage\'s tpc_finish hands back is '
+      'read while the commit lock or the storage lock is still held (the '
+      'next tpc_begin overwrites it)', props=['C11', 'C02'],
+      min_instances=2)
+def r8(R):
+    from ..locks import held_locks, step_held
+    from ..twopc import BS, MS, commit_lock_ops
+    n = 0
+    for q in (FS, BS, MS):
+        cls = R.prog.cls(q)
+        if 'tpc_finish' not in cls.methods:
+            continue
+        f = cls.methods['tpc_finish']
+        g, b, F = R.cfg(f, cls, max_depth=1)
+        n += 1
+        R.instance('%s.tpc_finish' % cls.name)
+
+        def reads_tid(node, F=F):
+            a = node.ast
+            if a is None or node.kind not in ('stmt', 'return', 'test'):
+                return False
+            exprs = [a.value] if isinstance(a, (ast.Assign, ast.Return,
+                                                ast.Expr)) and \
+                getattr(a, 'value', None) is not None else (
+                    [a] if node.kind == 'test' else [])
+            for e in exprs:
+                for x in ast.walk(e):
+                    if isinstance(x, ast.Attribute) and isinstance(
+                            x.ctx, ast.Load) and dotted(x) and F.canon(
+                                x, node.frame) == ('self', '_tid'):
+                        return True
+            return False
+
+        def edge(node, st, lab, tgt, F=F):
+            held, commit = st
+            held = step_held(F, node, held, lab)
+            for kind, op in commit_lock_ops(F, node):
+                commit = (kind == 'acq')
+            return (held, commit)
+
+        def at(node, st, F=F):
+            held, commit = st
+            if node.frame.parent is None and reads_tid(node) and \
+                    not commit and ('self', '_lock') not in held_locks(held):
+                return Violation(
+                    'tpc_finish reads self._tid after the commit lock was '
+                    'released and without the storage lock: a thread '
+                    'waiting in tpc_begin assigns the next id first, the '
+                    'finished transaction reports the other one\'s id, and '
+                    'the connection stamps its objects with it (spurious '
+                    'conflicts later)')
+            return st
+
+        # the commit lock is held on entry (taken by tpc_begin)
+        vs, stats = explore(g, (frozenset(), True), at=at, edge=edge)
+        R.count(stats)
+        for v in vs:
+            R.violation(v.node, v.message, g, v.path)
+    R.require(n >= 2, 'tpc_finish implementations not found')
